@@ -55,53 +55,6 @@ func ZZ_C03_R2_RestoreWithPwmFaults() {
 	zzv.Assert(zzv.Or(modeBack, last == 255), "R2.last_attempted_write_is_full_speed")
 }
 
-// zzMemPersistence is an in-memory persistence.Persistence for controller start-up.
-type zzMemPersistence struct {
-	rpm     map[string]map[int]float64
-	pwmMaps map[string]map[int]int
-	saves   int
-}
-
-var errZZNotFound = zzErr("zz: not found")
-
-type zzErr string
-
-func (e zzErr) Error() string { return string(e) }
-
-func (p *zzMemPersistence) Init() error { return nil }
-func (p *zzMemPersistence) LoadFanPwmData(fan fans.Fan) (map[int]float64, error) {
-	d, ok := p.rpm[fan.GetId()]
-	if !ok {
-		return nil, errZZNotFound
-	}
-	return d, nil
-}
-func (p *zzMemPersistence) SaveFanPwmData(fan fans.Fan) error {
-	p.saves++
-	p.rpm[fan.GetId()] = *fan.GetFanRpmCurveData()
-	return nil
-}
-func (p *zzMemPersistence) DeleteFanPwmData(fan fans.Fan) error {
-	delete(p.rpm, fan.GetId())
-	return nil
-}
-func (p *zzMemPersistence) LoadFanPwmMap(fanId string) (map[int]int, error) {
-	d, ok := p.pwmMaps[fanId]
-	if !ok {
-		return nil, errZZNotFound
-	}
-	return d, nil
-}
-func (p *zzMemPersistence) SaveFanPwmMap(fanId string, pwmMap map[int]int) error {
-	p.saves++
-	p.pwmMaps[fanId] = pwmMap
-	return nil
-}
-func (p *zzMemPersistence) DeleteFanPwmMap(fanId string) error {
-	delete(p.pwmMaps, fanId)
-	return nil
-}
-
 func ZZ_C03_R3_StopRestores() {
 	orig := zzModes[zzv.Choice("originalMode", len(zzModes))]
 	origPwm := zzRange("originalPwm", 0, 255)
